@@ -4,7 +4,7 @@
    - the byte identities of the 9-byte atom record, the 12-bit pairs, the header and the cis/trans record
    - an abstract bit stream (lists of booleans, most significant bit first, zero padded to whole bytes). *)
 From Coq Require Import ZArith List Bool Lia ZifyBool.
-From Model Require Import PyBase Pack.
+From Model Require Import PyBase Pack PackSpec.
 From Gen Require Import Elements.
 Import ListNotations.
 Open Scope Z_scope.
@@ -290,24 +290,7 @@ Qed.
 (* ------------------------------------------------------------------------------------------------ *)
 (* abstract bit streams: most significant bit first *)
 
-Definition b2z (b : bool) : Z := if b then 1 else 0.
-
-(* the three bits of an order 0..7 *)
-Definition bits3 (o : Z) : list bool := [Z.testbit o 2; Z.testbit o 1; Z.testbit o 0].
 Definition z_of_bits3 (x y z : bool) : Z := 4 * b2z x + 2 * b2z y + b2z z.
-
-(* value of at most 8 bits, first bit has weight w; missing bits are zero *)
-Fixpoint bits_val (w : Z) (l : list bool) : Z :=
-  match l with [] => 0 | b :: r => b2z b * w + bits_val (w / 2) r end.
-Definition byte_of_bits (l : list bool) : Z := bits_val 128 l.
-
-(* bytes of a bit stream, the last byte zero padded *)
-Fixpoint bytes_of_bits (l : list bool) : list Z :=
-  match l with
-  | [] => []
-  | b0 :: b1 :: b2 :: b3 :: b4 :: b5 :: b6 :: b7 :: r => byte_of_bits [b0; b1; b2; b3; b4; b5; b6; b7] :: bytes_of_bits r
-  | _ => [byte_of_bits l]
-  end.
 
 (* 3-bit fields of a bit stream; an incomplete field at the end is dropped *)
 Fixpoint orders_of_bits (l : list bool) : list Z :=
